@@ -10,7 +10,7 @@ wt="/var/tmp/seedwt-$tag"; root="/var/tmp/seedroot-$tag"
 cleanup() { git -C /repo worktree remove --force "$wt" >/dev/null 2>&1; rm -rf "$wt" "$root"; }
 trap cleanup EXIT
 git -C /repo worktree add -q --detach "$wt" HEAD || exit 2
-if ! git -C "$wt" apply "$patch"; then echo "seedrun: patch does not apply"; exit 2; fi
+if ! git -C "$wt" apply "$patch" 2>/dev/null && ! git -C "$wt" apply --3way "$patch"; then echo "seedrun: patch does not apply"; exit 2; fi
 mkdir -p "$root"
 rsync -a --exclude /.git --exclude /bin --exclude /evidence --exclude /seeded /verif/ "$root/"
 out="$(VERIF_ROOT="$root" VERIF_REPO="$wt" "$root/run.sh" "$prop" "$tier" 2>&1)"
